@@ -117,7 +117,21 @@ def replay(ctx, beh, idx, newton_too=True):
                 if not (np.array_equal(Kn, K) and np.array_equal(Cn, C) and np.array_equal(Mn, M)):
                     K[...], C[...], M[...] = Kn, Cn, Mn
                     simu.model.Need_Update()  # what a parameter setter does: the simulation is notified and re-assembles
-            _set_algo(simu, p, beh.get("spelling", "member"))
+            q = st.get("refused", {"algo": "none"})
+            if q["algo"] != "none":
+                # TimeSchemes.tla, StepAfterRefusal: a set-call with inadmissible parameters is refused and changes nothing;
+                # the step is taken WITHOUT a new set-call and must be a step of the scheme that was in force
+                refused = False
+                try:
+                    _set_algo(simu, q, beh.get("spelling", "member"))
+                except AssertionError:
+                    refused = True
+                if refused:
+                    ctx.count(1, distinct_key=("refused", q["algo"], p["algo"], mode))
+                else:
+                    _set_algo(simu, p, beh.get("spelling", "member"))  # the library takes q for admissible: nothing to judge, scheme restored
+            else:
+                _set_algo(simu, p, beh.get("spelling", "member"))
             simu.Bc_Init()
             F = vec(st["F"])
             if np.any(F != 0):
@@ -175,9 +189,9 @@ def replay(ctx, beh, idx, newton_too=True):
 def run(ctx):
     cfgs = []
     if ctx.thorough:
-        cfgs = ["MC_TimeSchemes_onestep_thorough.cfg", "MC_TimeSchemes_free.cfg", "MC_TimeSchemes_switch_thorough.cfg", "MC_TimeSchemes_matchange.cfg"]
+        cfgs = ["MC_TimeSchemes_onestep_thorough.cfg", "MC_TimeSchemes_free.cfg", "MC_TimeSchemes_switch_thorough.cfg", "MC_TimeSchemes_matchange.cfg", "MC_TimeSchemes_refuse.cfg"]
     else:
-        cfgs = ["MC_TimeSchemes_onestep_quick.cfg", "MC_TimeSchemes_free.cfg", "MC_TimeSchemes_switch_quick.cfg", "MC_TimeSchemes_matchange.cfg"]
+        cfgs = ["MC_TimeSchemes_onestep_quick.cfg", "MC_TimeSchemes_free.cfg", "MC_TimeSchemes_switch_quick.cfg", "MC_TimeSchemes_matchange.cfg", "MC_TimeSchemes_refuse.cfg"]
     if ctx.replay:
         import json
 
@@ -193,10 +207,19 @@ def run(ctx):
     for cfg in cfgs:
         res = ctx.tlc_must_hold("MC_TimeSchemes", cfg, what="time-scheme invariants (Motion, UpdateRel, Conserve, Dissipate, Family)", timeout=3000)
         b = res.prints.get("BEH", [])
+        if cfg == "MC_TimeSchemes_refuse.cfg":
+            # the behaviours without a refused call are those of the switch configuration
+            b = [x for x in b if any(st.get("refused", {"algo": "none"})["algo"] != "none" for st in x["steps"])]
+            if not b:
+                from harness.core import MachineryError
+
+                raise MachineryError("MC_TimeSchemes_refuse.cfg produced no behaviour with a refused call")
         ctx.section(cfg, behaviours=len(b))
         behs += b
     # negative self-test: a wrong documented weight must be rejected by TLC's invariants
     ctx.tlc_must_fail("MC_TimeSchemes", "MC_TimeSchemes_neg.cfg")
+    # the design in which a refused set-call has already switched the scheme must be rejected
+    ctx.tlc_must_fail("MC_TimeSchemes", "MC_TimeSchemes_neg_refuse.cfg", expect="RefusedKeeps")
     ctx.pmap(_replay_job, list(enumerate(behs)))
     nsteps = ctx.cov["evaluations"]
     for i, beh in enumerate(behs):
